@@ -84,17 +84,62 @@ Proof. exact (fun opened ws ws' id => isolation max_payload_size opened ws ws' i
 Print Assumptions C10_isolation.
 
 (* the same on the state machine with the bounded queues, for every schedule of the reader
-   goroutine, Reads, local Writes and Closes: if no error has been latched (in particular no queue
-   overflowed: the receiver kept up), the whole trunk has been consumed and the connection is
-   still open, then what was read plus what is still queued is exactly what was written *)
+   goroutine, Reads (with any buffers), local Writes, Closes and Opens: if no error has been latched (in
+   particular no queue overflowed: the receiver kept up), the whole trunk has been consumed and the
+   connection is still open and was not opened after the start (a connection opened later has missed
+   what arrived before, by design), then the frames its Reads took plus what is still queued are exactly
+   the frames written *)
 Theorem C10_complete_when_keeping_up : forall ws qlen opened evs id s tr,
   wf_writes ws = true -> nodupN opened = true ->
   run (init_mux (trunk ws) qlen opened) evs = (s, tr) ->
-  m_err s = None -> m_rx s = [] -> conn_open id s = true ->
+  m_err s = None -> m_rx s = [] -> conn_open id s = true -> late_opened id s = false ->
   received id tr ++ queue_in id s = written_frames id ws.
 Proof. exact (fun ws qlen opened evs id s tr =>
   complete_when_keeping_up max_payload_size ws qlen opened evs id s tr max_payload_ok). Qed.
 Print Assumptions C10_complete_when_keeping_up.
+
+(* ---- the caller's buffer (conn.Read's guard, copy and count; which of len/cap the guard tests is read
+   from mux.go on every run: MuxConsts.read_checks_len) ---- *)
+
+(* for every buffer length and capacity and every frame: Read returns the whole frame and a count within
+   the buffer's LENGTH, or ENOMEM exactly when the frame is longer than the buffer *)
+Theorem C10_read_within_buffer : forall blen bcap msg,
+  match deliver blen bcap msg with
+  | ROData n c => n = lenN msg /\ c = msg /\ n <= blen
+  | RONoMem => blen < lenN msg
+  end.
+Proof. exact read_within_buffer. Qed.
+Print Assumptions C10_read_within_buffer.
+
+(* the same about the Read step of the state machine: it moves the state as a Read with a large buffer
+   does (the frame is consumed also when ENOMEM is returned — the code's documented design) *)
+Theorem C10_read_step_with_buffer : forall id pick blen bcap s,
+  fst (read_buf_step id pick blen bcap s) = fst (read_step id pick s) /\
+  match snd (read_buf_step id pick blen bcap s) with
+  | RBuf p (ROData n c) => snd (read_step id pick s) = RData p /\ n = lenN p /\ c = p /\ n <= blen
+  | RBuf p RONoMem => snd (read_step id pick s) = RData p /\ blen < lenN p
+  | r => snd (read_step id pick s) = r
+  end.
+Proof. exact read_buf_step_spec. Qed.
+Print Assumptions C10_read_step_with_buffer.
+
+(* for every schedule: if no Read was handed a buffer shorter than the frame it took, the bytes the holder
+   got are, in order and unmodified, the frames its Reads took from the queue *)
+Theorem C10_delivered_is_received : forall id evs s s' tr,
+  run s evs = (s', tr) -> no_enomem tr = true -> delivered id tr = concat (received id tr).
+Proof. exact (delivered_is_received max_payload_size). Qed.
+Print Assumptions C10_delivered_is_received.
+
+(* the variant that guards on the CAPACITY (the code before eed8d17) does not have the property: buffer of
+   length 1 and capacity 3, frame of 2 bytes: count 2 > 1, one byte lost *)
+Theorem C10_read_guard_on_capacity_refuted :
+  exists blen bcap msg, blen <= bcap /\
+    match deliver_by false blen bcap msg with
+    | ROData n c => blen < n /\ c <> msg
+    | RONoMem => False
+    end.
+Proof. exact read_guard_on_capacity_refuted. Qed.
+Print Assumptions C10_read_guard_on_capacity_refuted.
 
 (* ---- non-vacuity ---- *)
 Example C10_constants : wf_mp max_payload_size = true /\ max_payload_size = 4194314 /\ header_len = 8.
@@ -119,6 +164,14 @@ Example C10_example_schedule :
               EvReader; EvReader; EvRead 1 true; EvRead 2 true; EvReader; EvRead 1 true; EvReader;
               EvRead 2 true; EvReader] in
   let '(s, tr) := run_mp 4 (init_mux (trunk_mp 4 ex_ws) 1 [1;2]) evs in
-  m_err s = None /\ m_rx s = [] /\ conn_open 2 s = true /\
+  m_err s = None /\ m_rx s = [] /\ conn_open 2 s = true /\ late_opened 2 s = false /\
   received 2 tr ++ queue_in 2 s = [[20;21;22;23];[24;25;26;27];[28]].
+Proof. vm_compute. repeat split. Qed.
+(* buffers: len < frame <= cap (ENOMEM, the frame is gone), len = frame, len > frame; read_checks_len as generated *)
+Example C10_example_buffers :
+  read_checks_len = true /\
+  let evs := [EvReader; EvReader; EvReader; EvReadB 1 true 2 8; EvReadB 1 true 4 4; EvReadB 1 true 9 16] in
+  let '(s, tr) := run_mp 4 (init_mux (trunk_mp 4 [(1, [1;2;3;4;5;6;7;8;9;10])]) 8 [1]) evs in
+  map snd tr = [ROk; ROk; ROk; RBuf [1;2;3;4] RONoMem; RBuf [5;6;7;8] (ROData 4 [5;6;7;8]); RBuf [9;10] (ROData 2 [9;10])] /\
+  delivered 1 tr = [5;6;7;8;9;10] /\ no_enomem tr = false.
 Proof. vm_compute. repeat split. Qed.
